@@ -1,10 +1,11 @@
 """C04 - failure cancellation is exact: flagged dependents never run, others always run."""
 
 import ast
+import re
 
 from .. import AnalysisError
 from ..cfg import ALL_KINDS, NORMAL_KINDS, iter_own
-from ..lib import attr_stores, dominated_by, guard_forms, key_of, norm, render, type_is
+from ..lib import attr_stores, dominated_by, iteration_paths, guard_forms, key_of, norm, render, type_is
 from ..report import describe, rule
 
 P = "C04"
@@ -27,15 +28,34 @@ NODE = "JobQueue._check_completions"
 
 
 def _abstract(form):
-    """Map a normal-form guard to an abstract token shared by both siblings."""
+    """Map a normal-form guard to an abstract token shared by both siblings (independent of how locals are spelled)."""
     f = form.replace(" ", "")
-    if "intersection(failed_jobs)" in f:
+    if re.search(r"\.intersection\(\w+\)$", f) or re.fullmatch(r"\(?.+&\w+\)?", f):
         return "BLOCKERS&FAILED"
-    if f in ("<Job.cancel_on_blocking_job_failure>", "<AsyncJobInterface.cancel_on_blocking_job_failure>", "job.cancel_on_blocking_job_failure"):
+    if f in ("<Job.cancel_on_blocking_job_failure>", "<AsyncJobInterface.cancel_on_blocking_job_failure>") or re.fullmatch(r"\w+\.cancel_on_blocking_job_failure", f):
         return "FLAG"
-    if f in ("<Job.blocked_by>", "call:AsyncJobInterface.get_blocking_jobs()@job"):
+    if f == "<Job.blocked_by>" or re.fullmatch(r"call:AsyncJobInterface\.get_blocking_jobs\(\)@\w+", f) or re.fullmatch(r"\w+\.get_blocking_jobs\(\)", f) or re.fullmatch(r"\w+\.blocked_by", f):
         return "HAS_BLOCKERS"
     return None
+
+
+def _failed_set(ctx, fn):
+    """The local set the cancel decision intersects the blockers with (role: names of failed jobs)."""
+    names = set()
+    for call, n in _cancel_nodes(ctx, fn):
+        for f, p in guard_forms(ctx, fn, n, ALL_KINDS, kill=False):
+            m = re.search(r"\.intersection\((\w+)\)$", f.replace(" ", ""))
+            if m and p:
+                names.add(m.group(1))
+    if len(names) != 1:
+        raise AnalysisError("C04", f"{fn.short}: the failed-jobs set of the cancel decision was not recognised ({sorted(names)})")
+    return names.pop()
+
+
+def _is_blockers_alias(ctx, fn, node, name):
+    """`name` is a local bound (uniquely) to <entry>.get_blocking_jobs() at `node`."""
+    ud = ctx.rd(fn).unique_def(node, name)
+    return ud is not None and isinstance(ud[1], ast.Call) and isinstance(ud[1].func, ast.Attribute) and ud[1].func.attr == "get_blocking_jobs"
 
 
 def _cancel_nodes(ctx, fn):
@@ -109,7 +129,8 @@ def c04_2(ctx, r):
     for spec in (SUB, NODE):
         fn = ctx.fn(spec, "C04.2")
         cfg = ctx.cfg(fn)
-        ins = [(n, c) for n in cfg.nodes for c in cfg.calls_at(n) if isinstance(c.func, ast.Attribute) and c.func.attr in ("add", "update", "append") and ctx.src(c.func.value) == "failed_jobs"]
+        FAILED = _failed_set(ctx, fn)
+        ins = [(n, c) for n in cfg.nodes for c in cfg.calls_at(n) if isinstance(c.func, ast.Attribute) and c.func.attr in ("add", "update", "append") and ctx.src(c.func.value) == FAILED]
         if not ins:
             r.bad(key_of(fn, "failed set never filled"), fn.loc(), f"{fn.short} never adds to failed_jobs: nothing is ever canceled", "canceled ... exactly when at least one of its blocking jobs failed")
         for n, c in ins:
@@ -158,14 +179,27 @@ def c04_4(ctx, r):
         chained = False
         for l in iter_own(fn.node):
             if isinstance(l, ast.For) and "process_results()" in ctx.src(l.iter) and any(x in [y.id for y in iter_own(l.iter) if isinstance(y, ast.Name)] for x in lists):
-                chained = True
+                # both sources are iterated: chain(A, B) / A + B / [*A, *B] - not `A or B`, which drops B whenever A is non-empty
+                it = l.iter
+                chained = (isinstance(it, ast.Call) and ctx.src(it.func).split(".")[-1] == "chain" and len(it.args) >= 2) or (isinstance(it, ast.BinOp) and isinstance(it.op, ast.Add)) \
+                    or (isinstance(it, (ast.List, ast.Tuple)) and all(isinstance(e, ast.Starred) for e in it.elts))
         r.check(ok_bind and bool(apps) and chained, "submitter: the canceled result is appended to the list chained into the next pass", key_of(fn, "canceled result feedback"), fn.loc(call),
                 "the Result returned by _cancel_job is not fed back into the result iteration: jobs depending on a canceled job are not canceled", "or was itself canceled, and this propagates along chains")
         # canceled_jobs list returned (second element) receives the job -> counted as submitted (C09.2)
     # the feedback list is cleared only after it was consumed
-    clears = [c for x in cfg.nodes for c in cfg.calls_at(x) if isinstance(c.func, ast.Attribute) and c.func.attr == "clear" and ctx.src(c.func.value) == "new_results"]
+    fb = set()
+    for call, n in _cancel_nodes(ctx, fn):
+        st = ctx.stmt_of(fn, call)
+        if isinstance(st, ast.Assign) and isinstance(st.targets[0], ast.Name):
+            v0 = st.targets[0].id
+            for x in cfg.nodes:
+                for c in cfg.calls_at(x):
+                    if isinstance(c.func, ast.Attribute) and c.func.attr == "append" and c.args and isinstance(c.args[0], ast.Name) and c.args[0].id == v0 and isinstance(c.func.value, ast.Name):
+                        if any(isinstance(l, ast.For) and "process_results()" in ctx.src(l.iter) and c.func.value.id in [y.id for y in iter_own(l.iter) if isinstance(y, ast.Name)] for l in iter_own(fn.node)):
+                            fb.add(c.func.value.id)
+    clears = [c for x in cfg.nodes for c in cfg.calls_at(x) if isinstance(c.func, ast.Attribute) and c.func.attr == "clear" and ctx.src(c.func.value) in fb]
     for c in clears:
-        loops = [l for l in iter_own(fn.node) if isinstance(l, ast.For) and "new_results" in ctx.src(l.iter)]
+        loops = [l for l in iter_own(fn.node) if isinstance(l, ast.For) and any(isinstance(y, ast.Name) and y.id in fb for y in iter_own(l.iter))]
         heads = [x for x in cfg.nodes if x.kind == "for" and x.ast in loops]
         for cn in ctx.nodes_of(fn, c):
             r.check(bool(heads) and dominated_by(ctx, fn, cn, heads) and not any(l in ctx.enclosing(fn, c, (ast.For,)) for l in loops), "the feedback list is cleared after it was iterated", key_of(fn, "feedback cleared early"), fn.loc(c),
@@ -181,6 +215,26 @@ def c04_4(ctx, r):
         stored = any(isinstance(x, ast.Assign) and ctx.src(x.targets[0]).startswith("self._outstanding_jobs[") and ctx.src(x.value) == recv for x in blk)
         r.check(stored, "node: the canceled entry is put among the outstanding entries (seen complete+failed by the next pass)", key_of(nf, "canceled entry feedback"), nf.loc(call),
                 "a canceled entry is not stored in _outstanding_jobs: its dependents are never canceled and its completion is never counted", "propagates along chains")
+    # the stored key is the stored entry's own name (the next pass looks entries up / reports completions by it)
+    jq = ctx.cls("JobQueue", "C04.4")
+    nkey = 0
+    for m in jq.methods.values():
+        for st in iter_own(m.node):
+            if isinstance(st, ast.Assign) and isinstance(st.targets[0], ast.Subscript) and ctx.src(st.targets[0].value) == "self._outstanding_jobs":
+                nkey += 1
+                r.check(ctx.src(st.targets[0].slice) == f"{ctx.src(st.value)}.name", f"{m.short}: an outstanding entry is filed under its own name", key_of(m, f"entry filed under {ctx.src(st.targets[0].slice)}"), m.loc(st),
+                        f"`{ctx.src(st)}` files the entry under `{ctx.src(st.targets[0].slice)}`, not under its own name: a canceled entry filed under the name of the job that just completed replaces / is replaced by "
+                        "another entry, so its dependents are neither canceled nor released and the node queue never drains", "this propagates along chains identically whether detected on a compute node or by a submitter")
+    if nkey < 3:
+        raise AnalysisError("C04.4", f"only {nkey} stores into JobQueue._outstanding_jobs found")
+    # every worker node knows the exit status too: _return_code is taken before the non-manager early return
+    cpl = ctx.fn("AsyncCliCommand._complete", "C04.4")
+    cfgc = ctx.cfg(cpl)
+    rcs = [n for n in cfgc.nodes if n.kind == "stmt" and isinstance(n.ast, ast.Assign) and ctx.src(n.ast.targets[0]) == "self._return_code" and ctx.src(n.ast.value) == "self._pipe.returncode"]
+    for n in [x for x in cfgc.nodes if x.kind == "stmt" and isinstance(x.ast, ast.Return)] + [cfgc.exit]:
+        r.check(bool(rcs) and dominated_by(ctx, cpl, n, rcs, NORMAL_KINDS), "_complete records the exit status on every node before it returns", key_of(cpl, "return before the exit status is recorded"), cpl.loc(n.ast) if n.ast is not None else cpl.loc(),
+                "_complete can return (the non-manager path of a multi-node batch) before self._return_code was set from the pipe: return_code stays None, `None != 0` makes every finished blocker look failed on that node, "
+                "and flagged dependents are canceled there although nothing failed", "is canceled ... exactly when at least one of its blocking jobs failed")
     can = ctx.fn("AsyncCliCommand.cancel", "C04.4")
     body = can.node.body
     okc = any(isinstance(x, ast.Assign) and ctx.src(x.targets[0]) == "self._is_complete" and ctx.src(x.value) == "True" for x in body)
@@ -194,6 +248,20 @@ def c04_4(ctx, r):
     from .c08 import node_rows_go_to_node_file
 
     node_rows_go_to_node_file(ctx, r, "C04.4")
+    # the scan that cancels / unblocks visits every candidate of the pass (a break after the first cancellation leaves the
+    # other dependents of the same failure to the next pass, whose failed set no longer contains that failure)
+    for spec in (SUB, NODE):
+        f3 = ctx.fn(spec, "C04.4")
+        for call, n in _cancel_nodes(ctx, f3):
+            lps = ctx.enclosing(f3, call, (ast.For,))
+            if not lps:
+                raise AnalysisError("C04.4", f"{f3.short}: cancel action outside a scan loop")
+            for end, conds, last in iteration_paths(ctx, f3, lps[0]):
+                if end == "leave":
+                    r.bad(key_of(f3, "cancel scan left early"), f3.loc(last.stmt if last.stmt is not None else lps[0]),
+                          f"{f3.short} leaves the scan over the waiting jobs before its end (under {sorted(('' if p else 'not ') + f for f, p in conds)}): jobs behind that point are not examined in this pass; "
+                          "the next pass rebuilds the failed set without this pass's failures, so their flagged dependents are unblocked and run", "is canceled ... exactly when at least one of its blocking jobs failed")
+            r.ok(f"{f3.short}: the cancel scan runs to its end")
     rc = ctx.fn("AsyncCliCommand.return_code", "C04.4")
     from ..lib import _single_return
 
@@ -214,11 +282,18 @@ def c04_5(ctx, r):
     from .c01 import _must_pass
 
     cfg = ctx.cfg(nf)
+    IDX = set()
+    for l in iter_own(nf.node):
+        if isinstance(l, ast.For) and isinstance(l.iter, ast.Call) and ctx.src(l.iter.func) == "enumerate" and ctx.src(l.iter.args[0]) == "self._queued_jobs" and isinstance(l.target, ast.Tuple):
+            iv = ctx.src(l.target.elts[0])
+            for c in ast.walk(l):
+                if isinstance(c, ast.Call) and isinstance(c.func, ast.Attribute) and c.func.attr == "append" and c.args and ctx.src(c.args[0]) == iv and isinstance(c.func.value, ast.Name):
+                    IDX.add(c.func.value.id)
     for call, n in _cancel_nodes(ctx, nf):
-        recs = [x for x in cfg.nodes for c in cfg.calls_at(x) if isinstance(c.func, ast.Attribute) and c.func.attr == "append" and ctx.src(c.func.value) == "canceled_indices"]
+        recs = [x for x in cfg.nodes for c in cfg.calls_at(x) if isinstance(c.func, ast.Attribute) and c.func.attr == "append" and ctx.src(c.func.value) in IDX]
         r.check(bool(recs) and _must_pass(ctx, nf, n, recs), "node: the canceled entry's index is recorded for removal", key_of(nf, "cancel index recorded"), nf.loc(call),
                 "a canceled entry stays in _queued_jobs (its blockers were emptied, so the next poll starts it)", "its command is never started")
-    pops = [l for l in iter_own(nf.node) if isinstance(l, ast.For) and ctx.src(l.iter) == "reversed(canceled_indices)" and "self._queued_jobs.pop" in ctx.src(l)]
+    pops = [l for l in iter_own(nf.node) if isinstance(l, ast.For) and any(ctx.src(l.iter) == f"reversed({x})" for x in IDX) and f"self._queued_jobs.pop({ctx.src(l.target)})" in ctx.src(l)]
     r.check(bool(pops), "node: recorded indices are popped in reverse order", key_of(nf, "pop canceled"), nf.loc(), "canceled entries are not removed from the queue")
     # cancel precedes nothing that could run it: run() of the entry is not called in _check_completions
     r.check(not ctx.sites(nf, short="JobQueue._run_job"), "_check_completions never starts entries", key_of(nf, "starts entries"), nf.loc(), "_check_completions starts queue entries")
@@ -269,7 +344,8 @@ def c04_6(ctx, r):
                         continue  # flag is unset
                     if tok == "HAS_BLOCKERS" and pol is False:
                         continue  # the job has remaining blockers
-                    if pol is False and (form.endswith(" in blocking_jobs") or form.endswith("in call:AsyncJobInterface.get_blocking_jobs()@job")):
+                    if pol is False and (re.search(r" in call:AsyncJobInterface\.get_blocking_jobs\(\)@\w+$", form) or re.search(r" in \w+\.get_blocking_jobs\(\)$", form)
+                                         or (re.search(r" in (\w+)$", form) and _is_blockers_alias(ctx, fn, cur, re.search(r" in (\w+)$", form).group(1)))):
                         continue  # the completed name is one of its blockers
                 stack.append((d, path + ((cur, k, cc),)))
         ctx.counters["paths"] += npaths
